@@ -89,11 +89,15 @@ pub struct Client {
     pub nreq: u64,
     pub cap: usize,
     pub last: Option<Exec>,
+    /// fault injection for the next request only: fail the n-th descriptor allocation inside the server
+    pub inject: Option<u64>,
+    /// descriptor allocations the server made for the last request
+    pub last_allocs: u64,
 }
 
 impl Client {
     pub fn new() -> Client {
-        Client { dev: FuseDev::new(), uid: 0, gid: 0, pid: 4242, unique: 100, nreq: 0, cap: (1 << 20) + 4096, last: None }
+        Client { dev: FuseDev::new(), uid: 0, gid: 0, pid: 4242, unique: 100, nreq: 0, cap: (1 << 20) + 4096, last: None, inject: None, last_allocs: 0 }
     }
 
     pub fn creds(&mut self, uid: u32, gid: u32) {
@@ -105,7 +109,9 @@ impl Client {
         self.unique += 1;
         self.nreq += 1;
         let req = Req { opcode: op as u32, unique: self.unique, nodeid, uid: self.uid, gid: self.gid, pid: self.pid, body, len: None }.bytes();
+        crate::fault::arm(self.inject.take().unwrap_or(0));
         let ex = self.dev.via_sep(h, &req, self.cap);
+        self.last_allocs = crate::fault::disarm();
         let rep = if ex.panic.is_some() {
             Rep { errno: EPANIC, body: vec![] }
         } else if ex.records.is_empty() {
